@@ -1208,4 +1208,67 @@ theorem resolve_lookup (table : List (String × Comp)) (arg : SubstArg) (reac pr
     obtain ⟨cs, hcs, rfl⟩ := h
     exact zip_lookup table _ cs hcs
 
+/-! ## Part 12: `composition_keys` holds every key of every substance; absent keys contribute nothing -/
+
+theorem mem_compositionKeys (subs : List (String × Comp)) (k : ℤ) :
+    k ∈ compositionKeys subs ↔ ∃ s ∈ subs, k ∈ s.2.map (·.1) := by
+  unfold compositionKeys
+  rw [mem_sortedSet, List.mem_flatMap]
+
+theorem lookup_some_mem {β : Type} : ∀ (l : List (String × β)) (k : String) (b : β), l.lookup k = some b → (k, b) ∈ l := by
+  intro l
+  induction l with
+  | nil => intro k b h; simp [List.lookup] at h
+  | cons a r ih =>
+    intro k b h
+    obtain ⟨a1, a2⟩ := a
+    rw [List.lookup_cons] at h
+    by_cases hk : (k == a1) = true
+    · rw [hk] at h
+      injection h with h
+      have : k = a1 := by simpa using hk
+      subst this; subst h
+      exact List.mem_cons_self ..
+    · have hk' : (k == a1) = false := by simpa using hk
+      rw [hk'] at h
+      exact List.mem_cons_of_mem _ (ih k b h)
+
+theorem lookupAll_mem (subs : List (String × Comp)) : ∀ (keys : List String) (cs : List Comp),
+    lookupAll subs keys = some cs → ∀ c ∈ cs, ∃ nm, (nm, c) ∈ subs := by
+  intro keys
+  induction keys with
+  | nil => intro cs h c hc; simp [lookupAll] at h; subst h; cases hc
+  | cons k r ih =>
+    intro cs h c hc
+    unfold lookupAll at h
+    split at h
+    · rename_i c0 cs' h1 h2
+      injection h with h
+      subst h
+      rcases List.mem_cons.1 hc with rfl | hc
+      · exact ⟨k, lookup_some_mem subs k _ h1⟩
+      · exact ih cs' h2 c hc
+    · cases h
+
+theorem get_eq_zero_of_not_key (c : Comp) (ck : ℤ) (h : ck ∉ c.map (·.1)) : c.get ck = 0 := by
+  unfold Comp.get
+  have : c.lookup ck = none := by
+    rw [List.lookup_eq_none_iff]
+    intro p hp
+    simp only [bne_iff_ne, ne_eq]
+    intro heq
+    exact h (List.mem_map.2 ⟨p, hp, heq.symm⟩)
+  rw [this]
+
+/-- a key outside `composition_keys` has amount 0 in every looked-up substance: its totals vanish -/
+theorem dot_absent_key (subs : List (String × Comp)) (keys : List String) (cs : List Comp) (x : Vec) (ck : ℤ)
+    (h : lookupAll subs keys = some cs) (hck : ck ∉ compositionKeys subs) : dot (cs.map (·.get ck)) x = 0 := by
+  apply dot_zero_left
+  intro q hq
+  obtain ⟨c, hc, rfl⟩ := List.mem_map.1 hq
+  obtain ⟨nm, hnm⟩ := lookupAll_mem subs keys cs h c hc
+  apply get_eq_zero_of_not_key
+  intro hk
+  exact hck ((mem_compositionKeys subs ck).2 ⟨(nm, c), hnm, hk⟩)
+
 end ChemModel.Balance
